@@ -97,6 +97,10 @@ StepSet0(st, e) ==
     [] e.ev = "wait"    -> IF WaitOK(st, e) THEN {st} ELSE {}
     [] e.ev = "fin"     -> IF FinOK(st, e) THEN {st} ELSE {}
     [] e.ev = "timeout" -> {st}
+    \* C15: the instance runs on the model obtained by serialising and re-parsing; the
+    \* harness compared the two models (elements, ids, references, attributes, expressions
+    \* and their formal / informal kind, event definitions, extensions; FindBy on every id)
+    [] e.ev = "roundtrip" -> IF e.ok THEN {st} ELSE {}
     [] OTHER -> {}
 
 (* C07: after the context has been cancelled the instance winds down.  What  *)
